@@ -1,15 +1,24 @@
-"""Witness for KF-C02-mask-shape-guard (unchanged tree): propagate_dft's guard `np.all(mask.shape != shape_out)` refuses a
-mask of the wrong shape only when BOTH dimensions differ. Run: /venv/bin/python notes/witnesses/c02_mask_shape_guard.py"""
-import sys; sys.path.insert(0, '/repo')
+"""Regression demonstration for the former known finding KF-C02-mask-shape-guard (fixed by FIXHASH: `np.all` -> `np.any` in the
+mask-shape guard of propagate_dft).
+
+Exits 0 on a fixed tree (every mask whose shape differs from the output array in either dimension raises ValueError) and
+non-zero (1) on the old tree, where an 8x10 or 10x8 mask was accepted for an 8x8 output and the evaluated window moved by one sample.
+Run: VERIF_REPO=/repo /venv/bin/python notes/witnesses/c02_mask_shape_guard.py"""
+import os, sys
+sys.path.insert(0, os.environ.get('VERIF_REPO', '/repo'))
 import numpy as np, lentil
 
 w = lentil.Wavefront(5e-7) * lentil.Pupil(amplitude=np.ones((4, 4)), pixelscale=1e-3, focal_length=8.0)
+bad = 0
 for ms in [(8, 8), (8, 10), (10, 8), (10, 10)]:
     m = np.zeros(ms); m[2:5, 3:6] = 1          # the same support rows 2..4, cols 3..5 in every mask
     try:
         f = lentil.propagate_dft(w, pixelscale=5e-6, shape=4, oversample=2, mask=m).field
         nz = np.argwhere(np.abs(f) > 0)
         print(ms, 'accepted for output (8, 8): evaluated rows', nz[:, 0].min(), '..', nz[:, 0].max(), 'cols', nz[:, 1].min(), '..', nz[:, 1].max())
+        if ms != (8, 8): bad += 1
     except ValueError as e:
         print(ms, 'ValueError:', e)
-# (8, 10) and (10, 8) are accepted and the window moves by one sample: cols 2..4 / rows 1..3 instead of 3..5 / 2..4
+        if ms == (8, 8): bad += 1
+print('DEFECT PRESENT: a mask of the wrong shape was accepted' if bad else 'ok: only the 8x8 mask is accepted')
+sys.exit(1 if bad else 0)
